@@ -160,6 +160,33 @@ def has_op(e):
 
 
 # ----------------------------------------------------------------------------- running the implementation
+# class (f): the `zero` attribute in its kinds.  All of them are the number zero, so the model (one numeric zero)
+# is unchanged; the kind is part of the object on the Python side only, like the coefficient types.  Every leaf
+# constructor of an expression takes the next kind of the side's cycle, so operands carry different kinds.
+ZKINDS = ["default", "none", "int", "float", "frac", "false", "q"]
+_ZK = {"kinds": ["default"], "i": 0}
+
+
+def set_zero_kinds(kinds):
+  _ZK["kinds"] = list(kinds) if kinds else ["default"]
+  _ZK["i"] = 0
+
+
+def zero_kw(kind=None):
+  if kind is None:
+    kind = _ZK["kinds"][_ZK["i"] % len(_ZK["kinds"])]
+    _ZK["i"] += 1
+  if kind == "default":
+    return {}
+  return {"zero": {"none": None, "int": 0, "float": 0.0, "frac": Fraction(0), "false": False, "q": ExactQ(0)}[kind]}
+
+
+def rand_zk(rng, p=0.5):
+  if rng.random() > p:
+    return ["default"]
+  return [rng.choice(ZKINDS) for _ in range(rng.randrange(1, 4))]
+
+
 def build(e, ty):
   """Evaluates an expression tree with the real Poly class."""
   from collections import OrderedDict
@@ -167,19 +194,19 @@ def build(e, ty):
   Poly = audiolazy.Poly
   t = e[0]
   if t == "pairs":
-    return Poly(OrderedDict((k, num(c, ty)) for k, c in e[1]))
+    return Poly(OrderedDict((k, num(c, ty)) for k, c in e[1]), **zero_kw())
   if t == "raw":
-    return Poly(OrderedDict(((float(k) if f else k), num(c, ty)) for k, f, c in e[1]))
+    return Poly(OrderedDict(((float(k) if f else k), num(c, ty)) for k, f, c in e[1]), **zero_kw())
   if t == "list":
-    return Poly([num(c, ty) for c in e[1]])
+    return Poly([num(c, ty) for c in e[1]], **zero_kw())
   if t == "const":
-    return Poly(num(e[1], ty))
+    return Poly(num(e[1], ty), **zero_kw())
   if t == "none":
-    return Poly()
+    return Poly(**zero_kw())
   if t == "x":
     # a fresh x with a coefficient of the case's numeric type (the library's own x = Poly({1: 1}) carries a Python
     # int, whose true division is float division: Python semantics, outside the exact domain)
-    return Poly({1: num([1, 1], ty)})
+    return Poly({1: num([1, 1], ty)}, **zero_kw())
   if t == "neg": return -build(e[1], ty)
   if t == "pos": return +build(e[1], ty)
   if t == "copy": return build(e[1], ty).copy()
@@ -236,6 +263,7 @@ def safe(f):
 
 def run_expr(c):
   _FLOATS_SEEN[0] = False
+  set_zero_kinds(c.get("zk"))
   r = safe(lambda: build(c["e"], c["ty"]))
   if r[0] == "raise":
     return {"terms": r}
@@ -250,7 +278,9 @@ def run_expr(c):
 
 def run_pair(c):
   _FLOATS_SEEN[0] = False
+  set_zero_kinds(c.get("zkl"))
   l = safe(lambda: build(c["lhs"], c["tyl"]))
+  set_zero_kinds(c.get("zkr"))
   r = safe(lambda: build(c["rhs"], c["tyr"]))
   o = {"l": l if l[0] == "raise" else ["ok", terms_of(l[1])],
        "r": r if r[0] == "raise" else ["ok", terms_of(r[1])]}
@@ -270,6 +300,7 @@ def qv(x):
 
 def run_eval(c):
   _FLOATS_SEEN[0] = False
+  set_zero_kinds(c.get("zk"))
   l = safe(lambda: build(c["p"], c["ty"]))
   r = safe(lambda: build(c["q"], c["ty"]))
   o = {"pt": l if l[0] == "raise" else ["ok", terms_of(l[1])],
@@ -421,6 +452,18 @@ def gen_expr(tier, rng):
     yield {"e": e, "ty": ty, "tags": ["random", "depth=%d" % depth, "ty=" + ty, "top=" + e[0]]}
 
 
+def with_zk(gen, keys, p=0.5):
+  """adds the zero kinds of the leaf constructors (class (f)) to every generated case"""
+  def g(tier, rng):
+    for c in gen(tier, rng):
+      for k in keys:
+        c[k] = rand_zk(rng, p)
+      if any(c[k] != ["default"] for k in keys):
+        c["tags"] = list(c["tags"]) + ["zero-kinds"]
+      yield c
+  return g
+
+
 def nontrivial_expr(c, o):
   t = o.get("terms")
   return bool(has_op(c["e"]) and t and t[0] == "ok" and len(t[1]) >= 2)
@@ -472,6 +515,10 @@ def gen_pair(tier, rng):
       a = rand_expr(rng, 1, tyl, SAFE_OPS, -2, 3, negpow=False)
     k = fr(rng.choice(pool_for(tyl)))
     n = rng.randrange(0, 6) if (i % 2 and tyl != "float") else rng.randrange(0, 4)
+    if i % 4 == 3 and tyl != "float":
+      # class (f): exponents well beyond the first few (a two-term base keeps the products small)
+      a = ["pairs", rand_pairs(rng, tyl, -2, 3, maxterms=2, dups=False, minterms=1)]
+      n = rng.randrange(6, 13) if len(a[1]) == 2 else rng.randrange(6, 21)
     for name, lhs, rhs in laws(rng, a, b, c3, k, n):
       yield {"lhs": lhs, "rhs": rhs, "must": True, "tyl": tyl, "tyr": tyr, "tags": ["law", name, "ty=%s/%s" % (tyl, tyr)]}
     # calculus / division laws needing exact division: rational types only
@@ -542,6 +589,9 @@ def gen_eval(tier, rng):
     if shape == "poly":
       p = ["pairs", rand_pairs(rng, "q", 0, 6, dups=False)]
       qq = ["pairs", rand_pairs(rng, "q", 0, 4, maxterms=4, dups=False)]
+      if i % 5 == 0:   # compositions needing powers of q well beyond 5
+        p = ["pairs", rand_pairs(rng, "q", 6, 14, maxterms=3, dups=False, minterms=1)]
+        qq = ["pairs", rand_pairs(rng, "q", -1, 2, maxterms=2, dups=False, minterms=1)]
     elif shape == "laurent":
       p = ["pairs", rand_pairs(rng, "q", -4, 6)]
       qq = ["pairs", rand_pairs(rng, "q", -3, 4, maxterms=4)]
@@ -716,9 +766,9 @@ def nontrivial_lagh(c, o):
 
 IMPORTS = "From AL Require Import C07.Model C07.Spec C07.Check."
 FAMILIES_BASE = {
-  "expr": Family("expr", IMPORTS, "ecase", "corr_expr", "holds_expr", gen_expr, run_expr, lit_expr, nontrivial_expr, known),
-  "pair": Family("pair", IMPORTS, "pcase", "corr_pair", "holds_pair", gen_pair, run_pair, lit_pair, nontrivial_pair, known),
-  "eval": Family("eval", IMPORTS, "vcase", "corr_eval", "holds_eval", gen_eval, run_eval, lit_eval, nontrivial_eval, known),
+  "expr": Family("expr", IMPORTS, "ecase", "corr_expr", "holds_expr", with_zk(gen_expr, ["zk"], 0.3), run_expr, lit_expr, nontrivial_expr, known),
+  "pair": Family("pair", IMPORTS, "pcase", "corr_pair", "holds_pair", with_zk(gen_pair, ["zkl", "zkr"], 0.5), run_pair, lit_pair, nontrivial_pair, known),
+  "eval": Family("eval", IMPORTS, "vcase", "corr_eval", "holds_eval", with_zk(gen_eval, ["zk"], 0.3), run_eval, lit_eval, nontrivial_eval, known),
   "lagr": Family("lagr", IMPORTS, "lcase", "corr_lagr", "holds_lagr", gen_lagr, run_lagr, lit_lagr, nontrivial_lagr, known),
 }
 FAMILIES = dict(FAMILIES_BASE)
